@@ -2894,7 +2894,48 @@ def tlc_lies(wd, pairs):
         out.append(json.loads(json.loads('"' + m.group(1) + '"')))
     if not out or r["error"]:
         raise ToolTrouble("MC_Lies produced no lies: %s" % r["error"])
+    if not pairs:
+        inj, seen = [], set()
+        for m in re.finditer(r'<<"INJ", "(.*)">>', r["out"]):
+            if m.group(1) not in seen:
+                seen.add(m.group(1))
+                inj.append(json.loads(json.loads('"' + m.group(1) + '"')))
+        if not inj:
+            raise ToolTrouble("MC_Lies printed no injections")
+        r["injections"] = inj
     return out, r
+
+
+def injected_archive(I, txt):
+    """an honest one-entry archive plus the record Lies!Injections describes (built by the independent builder)"""
+    import refzip, struct
+    e = {"name": b"inj.txt", "data": txt, "method": 8}
+    muts = []
+    if I["kind"] == "aes":
+        rec = (0x9901, struct.pack("<H2sBH", I["ver"], b"AE", I["strength"], I["inner"]))
+        e["method"] = I["outer"]
+        if I["outer"] == 99:
+            e["raw"] = txt
+        if I["enc"]:
+            e["flags_extra"] = 1
+    else:
+        rec = (1, b"".join(struct.pack("<Q", 5 + 3 * k) for k in range(I["nvals"])))
+    if I["where"] in ("local", "both"):
+        e["lextra"] = [rec]
+    if I["where"] in ("central", "both"):
+        e["cextra"] = [rec]
+    b, v = refzip.build({"entries": [e, {"name": b"next", "method": 0, "data": b"following entry"}]})
+    b = bytearray(b)
+    if I["kind"] == "z64":
+        pos = locate_records(bytes(b), v)
+        for flag, fld in ((I["sus"], "usize"), (I["scs"], "csize"), (I["soff"], "off")):
+            for rec_name in (["central"] if fld == "off" else (["central"] if I["where"] == "central" else ["local", "central"] if I["where"] == "both" else ["local"])):
+                if flag:
+                    p = lie_patch(bytes(b), pos, {"rec": rec_name, "f": fld, "off": {"central": {"csize": 20, "usize": 24, "off": 42}, "local": {"csize": 18, "usize": 22}}[rec_name][fld],
+                                                  "w": 4, "v": "max", "ent": 1})
+                    if p:
+                        b[p[1]:p[1] + len(p[2])] = bytes(p[2])
+    return bytes(b)
 
 
 def c05(tier):
@@ -2991,6 +3032,11 @@ def c05(tier):
                 ps = [lie_patch(b, pos, x) for x in lp]
                 if all(ps):
                     add(nm, "lie2", ps)
+    # records ADDED to honest entries (Lies!Injections, enumerated by TLC): AES records naming any inner method with/without the
+    # encryption flag under supported/unsupported outer methods; ZIP64 records of 0..4 values against any subset of sentinels
+    for I in r1["injections"]:
+        add("aes", "inject", [["raw", injected_archive(I, txt).hex()]])
+    rep.notes["injections"] = len(r1["injections"])
     # arbitrary bytes, with record signatures sprinkled in
     for i in range(1500 if quick else 40000):
         n = rnd.choice([0, 1, 21, 22, 23, 46, 64, 100, 300, 1000])
